@@ -2904,7 +2904,10 @@ def coalesce_copies(body, facts):
                     inside = sum(1 for s_ in sts[i:j + 1] for y in walk(s_) if y.get("k") == "Ref" and y.get("d") == "local" and y.get("id") == hid)
                     x_between = any(y.get("k") == "Ref" and y.get("d") == "local" and y.get("id") == xid for s_ in sts[i:j] for y in walk(s_))
                     in_lambda = any(y.get("k") == "Lambda" for s_ in sts[i:j + 1] for y in walk(s_))
-                    if inside != uses.get(hid, 0) or x_between or in_lambda:
+                    # (a handler that reads x would see the value earlier than before)
+                    in_handler = any(y.get("k") == "Ref" and y.get("d") == "local" and y.get("id") == xid
+                                     for t_ in walk(body) if t_.get("k") == "Try" for h_ in t_.get("handlers", []) for y in walk(h_.get("body")))
+                    if inside != uses.get(hid, 0) or x_between or in_lambda or in_handler:
                         break
                     # x must be declared outside this window (it is: it is not mentioned in it) - rewrite
                     tmpl = copy.deepcopy(lp)
@@ -2973,11 +2976,20 @@ def _invariant_in(c, regions, facts, memo):
     if not is_pure(c, facts):
         return False
     ins = []
-    for x in walk(c):
-        if x.get("k") in ("Member", "Ref"):
-            p = path(x)
-            if p is not None:
-                ins.append(tuple(p))
+
+    def inputs(x):
+        if isinstance(x, list):
+            for y in x:
+                inputs(y)
+            return
+        if not isinstance(x, dict):
+            return
+        if x.get("k") in ("Member", "Ref") and path(x) is not None:
+            ins.append(tuple(path(x)))          # the whole access path, not also the objects it goes through
+            return
+        for y in ir.children(x):
+            inputs(y)
+    inputs(c)
     if any(x.get("k") in ("Call", "MCall", "OpCall") and path(x) is None for x in walk(c)):
         return False
     for r in regions:
